@@ -1,0 +1,181 @@
+//! Accessors for the external verification harness (feature `verif-hooks`).
+//! Each function forwards to an existing `BigRat` method; there is no logic here.
+
+use super::sign::Sign;
+use super::{BigRat, FormatOptions};
+use crate::DecimalSeparatorStyle;
+use crate::ast::BitwiseBop;
+use crate::error::Interrupt;
+use crate::format::Format;
+use crate::num::hooks_biguint::{Raw as RawUint, from_raw as uint_from_raw, to_raw as uint_to_raw};
+use crate::num::{Base, FormattingStyle};
+
+/// `(negative, numerator, denominator)` exactly as stored.
+pub(crate) type Raw = (bool, RawUint, RawUint);
+
+pub(crate) fn from_raw(r: &Raw) -> BigRat {
+	BigRat {
+		sign: if r.0 { Sign::Negative } else { Sign::Positive },
+		num: uint_from_raw(&r.1),
+		den: uint_from_raw(&r.2),
+	}
+}
+
+pub(crate) fn to_raw(b: &BigRat) -> Raw {
+	(
+		b.sign == Sign::Negative,
+		uint_to_raw(&b.num),
+		uint_to_raw(&b.den),
+	)
+}
+
+fn e<T>(r: crate::result::FResult<T>) -> Result<T, String> {
+	r.map_err(|e| e.to_string())
+}
+
+/// Result: the value and its `exact` flag (true for operations that carry no flag).
+pub(crate) fn op1<I: Interrupt>(op: &str, a: &Raw, int: &I) -> Result<(Raw, bool), String> {
+	let x = from_raw(a);
+	let ex = |v: BigRat| (to_raw(&v), true);
+	Ok(match op {
+		"neg" => ex(-x),
+		"simplify" => ex(e(x.simplify(int))?),
+		"floor" => ex(e(x.floor(int))?),
+		"ceil" => ex(e(x.ceil(int))?),
+		"round" => ex(e(x.round(int))?),
+		"factorial" => ex(e(x.factorial(int))?),
+		"sin" => {
+			let r = e(x.sin(int))?;
+			(to_raw(&r.value), r.exact)
+		}
+		"exp" => {
+			let r = e(x.exp(int))?;
+			(to_raw(&r.value), r.exact)
+		}
+		"ln" => {
+			let r = e(x.ln(int))?;
+			(to_raw(&r.value), r.exact)
+		}
+		"log2" => ex(e(x.log2(int))?),
+		"log10" => ex(e(x.log10(int))?),
+		"asin" => ex(e(x.asin(int))?),
+		"acos" => ex(e(x.acos(int))?),
+		"atan" => ex(e(x.atan(int))?),
+		"sinh" => ex(e(x.sinh(int))?),
+		"cosh" => ex(e(x.cosh(int))?),
+		"tanh" => ex(e(x.tanh(int))?),
+		"asinh" => ex(e(x.asinh(int))?),
+		"acosh" => ex(e(x.acosh(int))?),
+		"atanh" => ex(e(x.atanh(int))?),
+		_ => return Err(format!("unknown op {op}")),
+	})
+}
+
+pub(crate) fn op2<I: Interrupt>(
+	op: &str,
+	a: &Raw,
+	b: &Raw,
+	int: &I,
+) -> Result<(Raw, bool), String> {
+	let x = from_raw(a);
+	let y = from_raw(b);
+	let ex = |v: BigRat| (to_raw(&v), true);
+	Ok(match op {
+		"add" => ex(e(x.add(y, int))?),
+		"sub" => ex(e(x.add(-y, int))?),
+		"mul" => ex(e(x.mul(&y, int))?),
+		"div" => ex(e(x.div(&y, int))?),
+		"modulo" => ex(e(x.modulo(y, int))?),
+		"pow" => {
+			let r = e(x.pow(y, int))?;
+			(to_raw(&r.value), r.exact)
+		}
+		"root_n" => {
+			let r = e(x.root_n(&y, int))?;
+			(to_raw(&r.value), r.exact)
+		}
+		"combination" => ex(e(x.combination(y, int))?),
+		"permutation" => ex(e(x.permutation(y, int))?),
+		"and" => ex(e(x.bitwise(y, BitwiseBop::And, int))?),
+		"or" => ex(e(x.bitwise(y, BitwiseBop::Or, int))?),
+		"xor" => ex(e(x.bitwise(y, BitwiseBop::Xor, int))?),
+		"shl" => ex(e(x.bitwise(y, BitwiseBop::LeftShift, int))?),
+		"shr" => ex(e(x.bitwise(y, BitwiseBop::RightShift, int))?),
+		_ => return Err(format!("unknown op {op}")),
+	})
+}
+
+/// -1, 0, 1 as `Ord for BigRat` has it.
+pub(crate) fn cmp(a: &Raw, b: &Raw) -> i8 {
+	from_raw(a).cmp(&from_raw(b)) as i8
+}
+
+pub(crate) fn into_f64<I: Interrupt>(a: &Raw, int: &I) -> Result<u64, String> {
+	Ok(e(from_raw(a).into_f64(int))?.to_bits())
+}
+
+pub(crate) fn from_f64<I: Interrupt>(bits: u64, int: &I) -> Result<Raw, String> {
+	Ok(to_raw(&e(BigRat::from_f64(f64::from_bits(bits), int))?))
+}
+
+pub(crate) fn try_as_usize<I: Interrupt>(a: &Raw, int: &I) -> Result<usize, String> {
+	e(from_raw(a).try_as_usize(int))
+}
+
+pub(crate) fn try_as_i64<I: Interrupt>(a: &Raw, int: &I) -> Result<i64, String> {
+	e(from_raw(a).try_as_i64(int))
+}
+
+pub(crate) fn terminates_in_base<I: Interrupt>(a: &Raw, base: u8, int: &I) -> Result<bool, String> {
+	e(from_raw(a).terminates_in_base(e(Base::from_plain_base(base))?, int))
+}
+
+/// `style`: "fraction" | "mixed" | "float" | "exact" | "auto" | "dp:N" | "sf:N".
+#[allow(clippy::too_many_arguments)]
+pub(crate) fn format<I: Interrupt>(
+	a: &Raw,
+	style: &str,
+	base: u8,
+	with_prefix: bool,
+	term: &'static str,
+	use_parens_if_fraction: bool,
+	comma: bool,
+	int: &I,
+) -> Result<(String, bool), String> {
+	let style = match style {
+		"fraction" => FormattingStyle::ImproperFraction,
+		"mixed" => FormattingStyle::MixedFraction,
+		"float" => FormattingStyle::ExactFloat,
+		"exact" => FormattingStyle::Exact,
+		"auto" => FormattingStyle::Auto,
+		s => {
+			let (k, n) = s.split_once(':').ok_or("bad style")?;
+			let n: usize = n.parse().map_err(|_| "bad style")?;
+			match k {
+				"dp" => FormattingStyle::DecimalPlaces(n),
+				"sf" => FormattingStyle::SignificantFigures(n),
+				_ => return Err("bad style".to_string()),
+			}
+		}
+	};
+	let base = if with_prefix {
+		e(Base::from_custom_base(base))?
+	} else {
+		e(Base::from_plain_base(base))?
+	};
+	let r = e(from_raw(a).format(
+		&FormatOptions {
+			base,
+			style,
+			term,
+			use_parens_if_fraction,
+			decimal_separator: if comma {
+				DecimalSeparatorStyle::Comma
+			} else {
+				DecimalSeparatorStyle::Dot
+			},
+		},
+		int,
+	))?;
+	Ok((r.value.to_string(), r.exact))
+}
